@@ -226,8 +226,56 @@ def rule_sites(c, prog, full=True):
         c.violation(R, "err-handling|anchor", f"could not classify the Err handling of all four sites: {table}", "")
 
 
+def rule_win(c, prog):
+    """XML writer: a migrated value is written only when the instance does not carry the new property itself."""
+    R = "C15.win"
+    c.rule(R, "XML writer: every path of serialize_instance's property loop that writes a value produced by PropertyMigration::perform is taken only when `instance.properties` does not contain migration.new_property_name (explicit new value wins on write; the readers' guards are C15.sites, the binary writer's lookup order is C08.own)")
+    f = prog.fn("rbx_xml::serializer::serialize_instance")
+    loops = [core.as_for(n) for n in core.walk_fn(f, into_closures=False) if core.as_for(n) is not None and n.get("k") != "DropTemps"]
+    loops = [l for l in loops if any(x.get("k") == "MethodCall" and core.callee(x) == PERFORM for x in core.walk(l[2]))]
+    if len(loops) != 1:
+        raise core.AnchorMissing(f"serialize_instance: expected one loop applying PropertyMigration::perform, found {len(loops)}")
+
+    def role(n):
+        n0 = core.strip(n)
+        if n0.get("k") == "LetExpr":
+            init = core.strip(n0["init"])
+            if init.get("k") == "MethodCall" and core.callee(init) == PERFORM:
+                return "MIGRATED" if "Ok" in core.pat_str(n0["pat"]) else "!MIGRATED"
+            n0 = init
+        if n0.get("k") == "MethodCall" and n0["m"] in ("contains_key", "get") and "properties" in core.place_root(n0["recv"])[1] and "new_property_name" in core.fingerprint(n0["args"][0], 6):
+            return "HASNEW"
+        return "?" + core.fingerprint(n0, 4)
+
+    def eff(n):
+        n0 = core.strip(n)
+        if n0.get("k") == "Call" and (core.callee(n0) or "").endswith("types::write_value_xml"):
+            return "write"
+        if n0.get("k") == "MethodCall" and core.callee(n0) == PERFORM:
+            return "perform"
+        return "·"
+
+    tb = decision.Tabler(namer=role, effect_namer=eff)
+    paths = tb.paths(loops[0][2])
+    n = bad = 0
+    for p in paths:
+        cs = dict(p.conds)
+        if len(cs) != len(set(p.conds)):
+            continue
+        if cs.get("MIGRATED") is True and "write" in p.effects:
+            n += 1
+            if cs.get("HASNEW") is not False:
+                bad += 1
+    c.floor(R, n, 1, "paths writing a migrated value")
+    if bad:
+        c.violation(R, "xml-writer|explicit-not-checked", f"serialize_instance writes the migrated legacy value under migration.new_property_name on {bad} path(s) without testing that the instance lacks that property: with both present two elements of the same name are written, and for migrations whose new name sorts before the legacy name (e.g. MeshId -> MeshContent) the migrated value is read back instead of the explicit one", f.sp, instance="xml-writer:explicit-wins")
+    else:
+        c.ok(R, "xml-writer:explicit-wins", n)
+
+
 def run(c, prog):
     d = dbm.Database()
+    rule_win(c, prog)
     rule_tbl(c, prog, d)
     rule_sites(c, prog)
     from . import C08
